@@ -488,17 +488,33 @@ func runC18(tier string, args []string) {
 	wg.Wait()
 	if len(args) < 2 {
 		var cw sync.WaitGroup
+		csem := make(chan struct{}, 6) // these trials are CPU-hungry: a few at a time
 		for i := 0; i < run.Pick(3, 12); i++ {
 			cw.Add(1)
-			go func(i int) { defer cw.Done(); runC18Churn(run, i, run.Seed*7000+int64(i)) }(i)
+			go func(i int) {
+				defer cw.Done()
+				csem <- struct{}{}
+				defer func() { <-csem }()
+				runC18Churn(run, i, run.Seed*7000+int64(i))
+			}(i)
 		}
 		for i := 0; i < run.Pick(3, 12); i++ {
 			cw.Add(1)
-			go func(i int) { defer cw.Done(); runC18Tight(run, i, run.Seed*7100+int64(i)) }(i)
+			go func(i int) {
+				defer cw.Done()
+				csem <- struct{}{}
+				defer func() { <-csem }()
+				runC18Tight(run, i, run.Seed*7100+int64(i))
+			}(i)
 		}
 		for i := 0; i < run.Pick(4, 24); i++ {
 			cw.Add(1)
-			go func(i int) { defer cw.Done(); runC18RelayRestart(run, i, run.Seed*7200+int64(i)) }(i)
+			go func(i int) {
+				defer cw.Done()
+				csem <- struct{}{}
+				defer func() { <-csem }()
+				runC18RelayRestart(run, i, run.Seed*7200+int64(i))
+			}(i)
 		}
 		cw.Wait()
 	}
